@@ -29,7 +29,8 @@ pub struct AtomicsCase {
     pub init_seed: u64,
     /// "zero" | "ones" | "random": initial element values
     pub init_kind: String,
-    /// per task: list of (index, value); bv_swap: all the same index
+    /// per task: list of (index, value); bv_swap: value bit 0 = bit to store, bit 1 = `set` instead of `swap`;
+    /// one index is shared by all tasks (swaps only), every other index belongs to one task
     pub tasks: Vec<Vec<(usize, u64)>>,
     /// ef: upper bound
     pub u: usize,
@@ -255,17 +256,19 @@ fn bv_set(case: &AtomicsCase, obs: &mut Obs) {
     }
 }
 
-/// Is there an order of all calls, respecting each task's program order, in which every swap
-/// returns the value the bit held and the final value matches?
-fn linearizable(init: bool, calls: &[Vec<(bool, bool)>], fin: bool) -> bool {
-    fn rec(cur: bool, pos: &mut Vec<usize>, calls: &[Vec<(bool, bool)>], fin: bool) -> bool {
+/// Is there an order of all calls on one bit, respecting each task's program order, in which
+/// every swap returns the value the bit held (a plain `set` returns nothing) and the final value
+/// matches? Bits are independent objects and linearizability is local, so every bit is checked
+/// on its own history.
+fn linearizable(init: bool, calls: &[Vec<(bool, Option<bool>)>], fin: bool) -> bool {
+    fn rec(cur: bool, pos: &mut Vec<usize>, calls: &[Vec<(bool, Option<bool>)>], fin: bool) -> bool {
         if pos.iter().zip(calls).all(|(&p, c)| p == c.len()) {
             return cur == fin;
         }
         for t in 0..calls.len() {
             if pos[t] < calls[t].len() {
                 let (val, ret) = calls[t][pos[t]];
-                if ret == cur {
+                if ret.is_none() || ret == Some(cur) {
                     pos[t] += 1;
                     if rec(val, pos, calls, fin) {
                         pos[t] -= 1;
@@ -280,15 +283,17 @@ fn linearizable(init: bool, calls: &[Vec<(bool, bool)>], fin: bool) -> bool {
     rec(init, &mut vec![0; calls.len()], calls, fin)
 }
 
+/// `swap` on a bit shared by all tasks, mixed with `swap`/`set` on bits each owned by one task
+/// (mostly in the same word). Operation encoding in the value: bit 0 = value to store, bit 1 =
+/// use `set` instead of `swap`.
 fn bv_swap(case: &AtomicsCase, obs: &mut Obs) {
     let (words, model) = bv_storage(case);
     let v: BitVec<Vec<usize>> = unsafe { BitVec::from_raw_parts(words, case.len) };
     let a: AtomicBitVec = v.into();
     let a = Arc::new(a);
-    let idx = case.tasks.iter().flatten().next().map(|x| x.0).unwrap_or(0);
-    let init = model[idx];
     set_op("bv:swap(concurrent)");
-    let results: Arc<Mutex<Vec<Vec<(bool, bool)>>>> = Arc::new(Mutex::new(vec![Vec::new(); case.tasks.len()]));
+    type Calls = Vec<(usize, bool, Option<bool>)>;
+    let results: Arc<Mutex<Vec<Calls>>> = Arc::new(Mutex::new(vec![Vec::new(); case.tasks.len()]));
     let mut hs = Vec::new();
     for (ti, t) in case.tasks.iter().enumerate() {
         let a2 = a.clone();
@@ -298,8 +303,13 @@ fn bv_swap(case: &AtomicsCase, obs: &mut Obs) {
             let mut mine = Vec::new();
             for (i, val) in t {
                 let v = val & 1 != 0;
-                let ret = a2.swap(i, v, Ordering::Relaxed);
-                mine.push((v, ret));
+                if val & 2 != 0 {
+                    a2.set(i, v, Ordering::Relaxed);
+                    mine.push((i, v, None));
+                } else {
+                    let ret = a2.swap(i, v, Ordering::Relaxed);
+                    mine.push((i, v, Some(ret)));
+                }
             }
             r2.lock().unwrap()[ti] = mine;
         }));
@@ -307,21 +317,37 @@ fn bv_swap(case: &AtomicsCase, obs: &mut Obs) {
     for h in hs {
         h.join().unwrap();
     }
-    let fin = a.get(idx, Ordering::Relaxed);
     let calls = results.lock().unwrap().clone();
-    obs.checks += 1;
-    if !linearizable(init, &calls, fin) {
-        obs.violation = Some(Violation::new(
-            "not_linearizable",
-            "atomics:bv:swap_not_linearizable",
-            format!("initial bit {init}, calls (value, returned) per task {calls:?}, final bit {fin}"),
-            "return values and final bit producible by some sequential order of the calls",
-        ));
-        return;
+    let mut touched: Vec<usize> = case.tasks.iter().flatten().map(|x| x.0).collect();
+    touched.sort_unstable();
+    touched.dedup();
+    for &idx in &touched {
+        let fin = a.get(idx, Ordering::Relaxed);
+        let per_bit: Vec<Vec<(bool, Option<bool>)>> = calls.iter().map(|c| c.iter().filter(|x| x.0 == idx).map(|x| (x.1, x.2)).collect()).collect();
+        let writers = per_bit.iter().filter(|c| !c.is_empty()).count();
+        obs.checks += 1;
+        if !linearizable(model[idx], &per_bit, fin) {
+            obs.violation = Some(if writers > 1 {
+                Violation::new(
+                    "not_linearizable",
+                    "atomics:bv:swap_not_linearizable",
+                    format!("bit {idx}: initial {}, calls (value, returned) per task {per_bit:?}, final {fin}", model[idx]),
+                    "return values and final bit producible by some sequential order of the calls",
+                )
+            } else {
+                Violation::new(
+                    "lost_update",
+                    "atomics:bv:single_writer_bit_wrong",
+                    format!("bit {idx} (one writer): initial {}, calls (value, returned) {per_bit:?}, final {fin}", model[idx]),
+                    "each swap returns the previous value of the bit and the last stored value stays",
+                )
+            });
+            return;
+        }
     }
     // the other bits
     for i in 0..case.len {
-        if i != idx {
+        if touched.binary_search(&i).is_err() {
             obs.checks += 1;
             if a.get(i, Ordering::Relaxed) != model[i] && obs.violation.is_none() {
                 obs.violation = Some(Violation::new("neighbour_disturbed", "atomics:bv:swap_other_bit_changed", format!("bit {i} changed"), "unchanged"));
@@ -527,6 +553,30 @@ impl World for AtomicsWorld {
                 let i = rng.usize_below(c.len);
                 let nt = rng.urange(2, 4);
                 c.tasks = (0..nt).map(|_| (0..rng.urange(1, 2)).map(|_| (i, rng.below(2))).collect()).collect();
+                if rng.chance(3, 4) {
+                    // bits owned by one task each, preferably in the word of the shared bit
+                    let lo = i / 64 * 64;
+                    let hi = (lo + 64).min(c.len);
+                    let mut pool: Vec<usize> = (lo..hi).filter(|&j| j != i).collect();
+                    if pool.is_empty() || rng.chance(1, 4) {
+                        pool = (0..c.len).filter(|&j| j != i).collect();
+                    }
+                    for k in (1..pool.len()).rev() {
+                        let j = rng.usize_below(k + 1);
+                        pool.swap(k, j);
+                    }
+                    for t in 0..nt {
+                        for _ in 0..rng.urange(0, 3) {
+                            if let Some(j) = pool.pop() {
+                                for _ in 0..rng.urange(1, 2) {
+                                    let op = (j, rng.below(2) | (rng.below(2) << 1));
+                                    let at = rng.usize_below(c.tasks[t].len() + 1);
+                                    c.tasks[t].insert(at, op);
+                                }
+                            }
+                        }
+                    }
+                }
             }
             _ => {
                 let n = rng.urange(1, 64);
